@@ -69,14 +69,15 @@ func fidEmit(obj any, ev string, s string, n []int64) {
 }
 
 type progRun struct {
-	Out   string `json:"out"` // base64
-	Err   string `json:"err"` // base64
-	Exit  int    `json:"exit"`
-	Hung  bool   `json:"hung,omitempty"`
-	Panic string `json:"panic,omitempty"`
-	ExecE string `json:"exec_err,omitempty"`
-	Fids  []int  `json:"fids_left,omitempty"`
-	NFids int    `json:"fids_used,omitempty"`
+	Out    string `json:"out"` // base64
+	Err    string `json:"err"` // base64
+	Exit   int    `json:"exit"`
+	Hung   bool   `json:"hung,omitempty"`
+	Panic  string `json:"panic,omitempty"`
+	ExecE  string `json:"exec_err,omitempty"`
+	Stacks string `json:"stacks,omitempty"`
+	Fids   []int  `json:"fids_left,omitempty"`
+	NFids  int    `json:"fids_used,omitempty"`
 }
 
 type progResult struct {
@@ -136,6 +137,9 @@ func runOneProgram(src string, timeout time.Duration, wantFids bool) (r progRun)
 		}
 	case <-time.After(timeout):
 		r.Hung = true
+		buf := make([]byte, 1<<20)
+		n := runtime.Stack(buf, true)
+		r.Stacks = string(buf[:n])
 		return
 	}
 	bErr, _ := fork.Stderr.ReadAll()
